@@ -131,4 +131,4 @@ def strategy(tier):
     return gen.scenario(CFG, flags={}, p_fail=0.4, max_choices=60, controls=CONTROLS)
 
 
-PARTS = [Part("retry", run, strategy, {"quick": 2400, "thorough": 60000}, rule=RULE)]
+PARTS = [Part("retry", run, strategy, {"quick": 2400, "thorough": 24000}, rule=RULE)]
